@@ -553,3 +553,27 @@ def rule_env_observers_pure(prog: Program, col: Collector) -> None:
                       f"{name} stores nothing into the environment" + (f" (found: {hits[0][1]})" if hits else ""), construct=f"observer-stores:{name}",
                       necessity="a flag or cache set while reading (`done` latched once true, a remembered mask) is not undone by unstep(): after a solver's probe "
                                 "step()/unstep() the table is restored but the environment still reports the probed state - done stays true with actions left")
+
+
+_VIEW_GETTERS = ("get_intervals", "get_upper_bounds", "get_lower_bounds", "get_values", "get_known_values", "are_values_known")
+
+
+def rule_env_holds_no_view(prog: Program, col: Collector) -> None:
+    """An environment does not keep an array obtained from a getter of its game: it asks the game when it needs the numbers."""
+    col.rule("OBS-V", "no attribute of an environment is bound to an array returned by a getter of a game (a view today, a frozen copy after pickling)", 0)
+    n = 0
+    for cq in (GYM, LIN):
+        for name, m in prog.methods(cq).items():
+            for e in fterms(prog, m).of_kind("store"):
+                if e.obj == SELF and e.attr is not None:
+                    v = e.value
+                    while isinstance(v, tuple) and v and v[0] in ("index", "attr") and not (v[0] == "attr" and v[2] in _VIEW_GETTERS):
+                        v = v[1]
+                    if isinstance(v, tuple) and len(v) == 4 and v[0] == "call" and v[1][0] == "attr" and v[1][2] in _VIEW_GETTERS and not v[2] and not v[3]:
+                        n += 1
+                        col.violation(m.where(e.node), m.short, f"env-holds-view:{e.attr}", f"self.{e.attr} keeps the array returned by {v[1][2]}() of a game",
+                                      "the no-argument getters hand out views of the game's table: the attribute tracks the game only as long as both live in one process - "
+                                      "pickled into a pool worker (or copied) it becomes a frozen snapshot, so `done` / the observation read there differ from the sequential run; "
+                                      "it also goes stale as soon as the game object is replaced")
+    if n == 0:
+        col.ok("-", "environments", "no attribute holds a getter's array")
